@@ -317,7 +317,100 @@ def one_case(ctx, case):
     return viol, nt
 
 
+def two_timer_case(ctx, rng):
+    """timer A's callback acts on ANOTHER, still pending timer B (a retransmission timer re-arming its neighbour):
+    for B this is a restart / stop from elsewhere like any other"""
+    K = kern.RealK.load()
+    from onl.utils import Timer
+    env = K.Environment()
+    TB = rng.choice([10, 7.5, 20])
+    TA = rng.choice([1, 2, 4, 6])
+    tau = rng.choice([2, 3, 8, 20, 0.5])
+    act = rng.choice(["restart", "restart", "stop"])
+    autoA = rng.random() < 0.4
+    nmax = rng.randint(1, 3)
+    firedB, firedA = [], []
+    T = {}
+
+    def cbB():
+        firedB.append(env.now)
+
+    def cbA():
+        firedA.append(env.now)
+        if len(firedA) <= nmax:
+            if act == "restart":
+                T["B"].restart(tau)
+            else:
+                T["B"].stop()
+    T["B"] = Timer(env, TB, cbB)
+    T["A"] = Timer(env, TA, cbA, auto_restart=autoA)
+    case = {"probe": "two_timers", "TB": TB, "TA": TA, "tau": tau, "act": act, "autoA": autoA, "nmax": nmax}
+    H = 60
+    ctx.count("two_timer_cases")
+    try:
+        env.run(until=H)
+    except BaseException as e:
+        ctx.violation(f"exception:{type(e).__name__}@two-timers", "the run raised", repr(e)[:200], case)
+        return
+    # reference: B pending with expiry E; every action of A (at its firing instants) re-arms or stops it
+    timesA = [TA * (k + 1) for k in range(nmax if autoA else 1)] if autoA else [TA]
+    E, stopped, want, optional = TB, False, [], []
+    fired_once = False
+    for t in timesA[:nmax]:
+        if E is not None and E == t and not stopped:
+            ctx.count("two_timer_coincidences_not_judged")       # B's expiry and A's action in one instant: order not stated
+            return
+        if E is not None and E < t and not stopped:
+            want.append(E)
+            E = None
+            fired_once = True
+        if fired_once:
+            # B is a one-shot timer that has fired: what a restart does then is not stated (it may fire again at r + tau)
+            if act == "restart":
+                optional.append(t + tau)
+            continue
+        if act == "stop":
+            stopped = True
+        else:
+            E = t + tau
+            stopped = False
+    if E is not None and not stopped and E < H:
+        want.append(E)
+    extra = firedB[len(want):]
+    if firedB[:len(want)] != want or any(x not in optional for x in extra):
+        ctx.violation("fired-at-voided-expiry[restarted from another timer's callback]" if len(firedB) > len(want) else "expiry-missed[restarted from another timer's callback]",
+                      "a pending timer restarted / stopped from inside ANOTHER timer's callback did not fire exactly at r + tau (and not at its old expiry)",
+                      {"fired": firedB, "expected": want, "optional": optional}, case)
+
+
+def unreferenced_timer_probe(ctx):
+    """a fire-and-forget Timer(env, tau, cb): the caller keeps no handle; it fires all the same"""
+    import gc
+    K = kern.RealK.load()
+    from onl.utils import Timer
+    for auto in (False, True):
+        for tau in (5, 0.5):
+            ctx.count("unreferenced_timer_probes")
+            env = K.Environment()
+            log = []
+            Timer(env, tau, lambda: log.append(env.now), auto_restart=auto)
+            gc.collect()
+            try:
+                env.run(until=tau * 3.5)
+            except BaseException as e:
+                ctx.violation(f"exception:{type(e).__name__}@unreferenced-timer", "the run raised", repr(e)[:200], {"probe": "unreferenced_timer"})
+                continue
+            want = [tau, 2 * tau, 3 * tau] if auto else [tau]
+            if log != want:
+                ctx.violation("expiry-missed[no reference kept by the caller]", "a timer nobody keeps a reference to did not fire at its expiry",
+                              {"fired": log, "expected": want}, {"probe": "unreferenced_timer", "tau": tau, "auto": auto})
+
+
 def run_shard(ctx):
+    if ctx.shard == 0:
+        unreferenced_timer_probe(ctx)
+    for j in range(150 if ctx.tier == "quick" else 3000):
+        two_timer_case(ctx, ctx.rng("two", j))
     for i in ctx.cases(ncases(ctx.tier)):
         case = gen_case(ctx.rng(i), i)
         viol, nt = one_case(ctx, case)
